@@ -90,9 +90,7 @@ def parity : Pt → Nat
   | .inf => 0
   | .aff _ y => y % 2
 
-/-- S256Point.even_point (`-1 * self` when the parity is odd).  For the point at infinity the Python
-    raises AttributeError (`parity` is never set); drivers answer REJECT for `.inf` and no theorem
-    uses `evenPoint .inf`. -/
+/-- S256Point.even_point (`-1 * self` when the parity is odd) -/
 def evenPoint (X : Pt) : Pt := if parity X = 1 then smul (-1) X else X
 
 /-- S256Point(x, y) from integers: range check of S256Field and the curve equation -/
